@@ -862,6 +862,7 @@ namespace pm
                // *_raise_nested< R... > blames its (single) inner rule, positioned at the start of the try block
                o.blame = int( n.b );
                o.rpos = pos;
+               o.msg = n.s;  // several inner rules: the message names the library's internal seq< R... > (filled in by the generator)
                return o;
             }
             case ENABLE: {
